@@ -1,4 +1,5 @@
 import MypyVerif.Proofs.VTable
+import MypyVerif.Proofs.ForRange
 /-!
 # C05 — mypyc-compiled code behaves like the interpreted source (logic slices)
 
@@ -157,3 +158,109 @@ theorem not_glue_complete :
   decide
 
 end VTable
+
+namespace ForRange
+
+/-- **forRange_visits** (partial: hypothesis `NoStepOverflow`).  For every pair of register types of the
+    start and end operands, every non-zero literal step and all start / stop values representable in the
+    index type: if every addition the loop performs is exact, the loop mypyc emits terminates and the index
+    register takes exactly the values of Python's `range(start, stop, step)`, in order.  For the `int` index
+    type (`CPyTagged_Add`) the hypothesis is vacuous — see `forRange_visits_int`. -/
+theorem forRange_visits_partial (st et : RTy) (step : Int) (hs : step ≠ 0) :
+    ∀ (n : Nat) (start stop : Int) (fuel : Nat),
+      rangeLen start stop step = n → n < fuel →
+      NoStepOverflow (indexType st et) start stop step →
+      loop (emit st et step) stop fuel start = some (pyRange start stop step) := by
+  intro n
+  induction n with
+  | zero =>
+    intro start stop fuel hlen hf _
+    cases fuel with
+    | zero => omega
+    | succ fuel =>
+      simp only [loop]
+      cases hc : (emit st et step).cond start stop with
+      | false => simp [pyRange, hlen, rangeFrom]
+      | true => have := (cond_iff_len st et start stop step hs).2 hc; omega
+  | succ n ih =>
+    intro start stop fuel hlen hf hno
+    cases fuel with
+    | zero => omega
+    | succ fuel =>
+      simp only [loop]
+      cases hc : (emit st et step).cond start stop with
+      | false => have := (cond_iff_len st et start stop step hs).1 hc; omega
+      | true =>
+        have hstep := (cond_iff_len st et start stop step hs).2 hc
+        have hun := pyRange_unfold start stop step hstep
+        have hfit : (indexType st et).fits (start + step) = true := hno start (by rw [hun]; simp)
+        rw [emit_next st et step start hfit]
+        have hno' : NoStepOverflow (indexType st et) (start + step) stop step := by
+          intro v hv; exact hno v (by rw [hun]; simp [hv])
+        rw [ih (start + step) stop fuel (by omega) (by omega) hno', hun]
+        simp
+
+/-- the `int` index type needs no hypothesis: `CPyTagged_Add` is exact -/
+theorem forRange_visits_int (st et : RTy) (hidx : indexType st et = .int) (step : Int) (hs : step ≠ 0)
+    (start stop : Int) (fuel : Nat) (hf : rangeLen start stop step < fuel) :
+    loop (emit st et step) stop fuel start = some (pyRange start stop step) :=
+  forRange_visits_partial st et step hs _ start stop fuel rfl hf
+    (by intro v _; rw [hidx]; rfl)
+
+/-- the index type is `int` unless both operands are short ints or the end operand is native -/
+example : indexType .int .int = .int ∧ indexType .short .int = .int ∧ indexType .i64 .short = .int := by decide
+
+/-- **not_forRange_visits** (finding F12).  The full statement — without `NoStepOverflow` — is false of
+    the code as it is: `for i in range(a, b, 2)` with `a = 2**63-4`, `b = 2**63-1` of type `i64` visits
+    `2**63-4, 2**63-2` under CPython; the emitted loop goes on with `-2**63` (wrapping add, signed compare)
+    and has not stopped after any number of further rounds we try (here: 3 rounds, `range` has 2 items). -/
+theorem not_forRange_visits :
+    ¬ (∀ (st et : RTy) (step : Int), step ≠ 0 → ∀ (start stop : Int) (fuel : Nat),
+        (indexType st et).fits start = true → (indexType st et).fits stop = true →
+        rangeLen start stop step < fuel →
+        loop (emit st et step) stop fuel start = some (pyRange start stop step)) := by
+  intro h
+  have := h .i64 .i64 2 (by decide) 9223372036854775804 9223372036854775807 3 (by decide) (by decide) (by decide)
+  revert this
+  decide
+
+/-- what the i64 loop of F12 visits first -/
+example : visitN (emit .i64 .i64 2) 9223372036854775807 3 9223372036854775804
+    = [9223372036854775804, 9223372036854775806, -9223372036854775808] := by decide
+example : pyRange 9223372036854775804 9223372036854775807 2 = [9223372036854775804, 9223372036854775806] := by decide
+
+/-- the same failure without any native integer type in the source (finding F12s): all three operands are
+    `int` literals, so the index is a *short int* and the step is added with a plain machine add:
+    `range(2**62-4, 2**62-1, 2**62-2)` is `[2**62-4]`; the emitted loop continues with `-6`. -/
+theorem not_forRange_visits_short :
+    loop (emit .short .short 4611686018427387902) 4611686018427387903 2 4611686018427387900
+      ≠ some (pyRange 4611686018427387900 4611686018427387903 4611686018427387902)
+    ∧ visitN (emit .short .short 4611686018427387902) 4611686018427387903 2 4611686018427387900
+      = [4611686018427387900, -6]
+    ∧ pyRange 4611686018427387900 4611686018427387903 4611686018427387902 = [4611686018427387900] := by
+  decide
+
+/-- and for `u8`: `range(250, 255, 3)` is `[250, 253]`; the emitted loop continues with `0` -/
+example : visitN (emit .u8 .u8 3) 255 3 250 = [250, 253, 0] ∧ pyRange 250 255 3 = [250, 253] := by decide
+
+/-- the start value is coerced into the index type *before* the first comparison (finding F12c):
+    `range(2**70, b)` with `b : i64 = 5` is empty under CPython, the compiled loop raises instead -/
+theorem not_coerceStart_total :
+    coerceStart (indexType .int .i64) 1180591620717411303424 = none
+    ∧ pyRange 1180591620717411303424 5 1 = [] := by decide
+
+/-! non-vacuity of `forRange_visits_partial`: boundary triples that satisfy `NoStepOverflow` -/
+example : NoStepOverflow .i64 9223372036854775800 9223372036854775805 2 := by decide
+example : loop (emit .i64 .i64 2) 9223372036854775805 4 9223372036854775800
+    = some [9223372036854775800, 9223372036854775802, 9223372036854775804] := by decide
+example : NoStepOverflow .u8 250 253 2 ∧ ¬ NoStepOverflow .u8 250 255 3 := by decide
+example : loop (emit .int .i16 (-7)) (-32760) 5 (-32750) = some [-32750, -32757]
+    ∧ NoStepOverflow .i16 (-32750) (-32760) (-7) ∧ ¬ NoStepOverflow .i16 (-32750) (-32768) (-7) := by decide
+
+/-- `pyRange` is CPython's item formula `start + i * step` for `i < len` -/
+theorem pyRange_items (start stop step : Int) :
+    pyRange start stop step
+      = (List.range (rangeLen start stop step)).map (fun (i : Nat) => start + (i : Int) * step) :=
+  rangeFrom_eq_map _ start step
+
+end ForRange
